@@ -1,7 +1,8 @@
 (* String constants of the reader model (kept apart because importing String
    shadows list functions). *)
-From Coq Require Import String.
+From Coq Require Import String List.
 From DSD Require Import Base.Str.
+Import ListNotations.
 
 Definition tDl := str "dl-domain".
 Definition tSl := str "sl-domain".
@@ -18,3 +19,14 @@ Definition eBadView := str "BadView".
 Definition eOverflow := str "OverflowError".
 Definition eName := str "NameError".
 Definition eUnbound := str "UnboundLocalError".
+
+(* the error kinds the library declares (C16) ... *)
+Definition declared_kinds : list pstr :=
+  [str "ParseException"; str "PilFormatError"; str "SingletonError"; str "ObjectInitError";
+   str "SecondaryStructureError"; str "NotImplementedError"; str "AssertionError"].
+(* ... and interpreter-level faults *)
+Definition fault_kinds : list pstr :=
+  [str "NameError"; str "TypeError"; str "AttributeError"; str "IndexError"; str "KeyError";
+   str "UnboundLocalError"; str "ValueError"; str "ZeroDivisionError"; str "OverflowError"].
+Definition is_fault (k : pstr) : bool := existsb (str_eqb k) fault_kinds.
+Definition is_declared (k : pstr) : bool := existsb (str_eqb k) declared_kinds.
